@@ -7,6 +7,16 @@ hint = {"a": "Prefer a change that needs an unusual input class or a particular 
         "c": "Prefer a change in code that only a less common entry point reaches - another overload, data/index type or block-size instantiation, a second backend/route, an options flag, a rarely used clone/convert/assembly mode - while the common path stays intact.",
         "d": "Prefer a change that only shows at a boundary of the input domain: sizes 0 or 1, empty rows/sets/patches, a single cell or process, first/last element, exactly equal values, or the largest admissible degree/level.",
         "b": "Prefer a change that needs a multi-step sequence of operations, two cooperating sites that each look fine alone, or a particular interleaving/fault point to manifest."}[variant]
+import glob, os, re
+used = []
+for mf in sorted(glob.glob('/verif/seeded/%s*/meta.json' % pid)) + sorted(glob.glob('/tmp/seed-%s*-out/meta.json' % pid)):
+    try:
+        m = json.load(open(mf)); w = re.sub(r'\s+', ' ', m.get('what', ''))
+        fn = re.findall(r'([A-Za-z_][A-Za-z0-9_:<>,]*(?:::|\.)[A-Za-z_~][A-Za-z0-9_]*)', w)[:2]
+        ent = ', '.join(m.get('files_changed', [])) + ((' (' + ', '.join(fn) + ')') if fn else '')
+        if ent not in used: used.append(ent)
+    except Exception: pass
+avoid = ("\nOther engineers have ALREADY seeded changes at the following places; pick a DIFFERENT function (preferably a different file), otherwise your work is a duplicate:\n  - " + "\n  - ".join(used) + "\n") if used else ""
 print(f"""You are a careful C++ engineer playing the role of a realistic *bug seeder* for the finite-element library feat3 (C++17). Your own scratch git worktree of the library is at {wt} (already created; work ONLY inside it and inside {wt}-out; do NOT read or touch /verif, /repo or other /tmp/seed-* directories).
 
 A semantic property that users rely on:
@@ -19,7 +29,7 @@ YOUR TASK: make ONE small, realistic change to the library source in {wt} (the k
   (1) the library still compiles, and
   (2) the existing unit tests closest to the changed code still pass, and
   (3) ordinary everyday use would not expose it at once: {hint}
-Do not make a change that simply crashes or corrupts everything; do not add dead code, comments that give it away, or test-only switches; change library code only (files under kernel/ or control/), a few lines.
+{avoid}Do not make a change that simply crashes or corrupts everything; do not add dead code, comments that give it away, or test-only switches; change library code only (files under kernel/ or control/), a few lines.
 
 HOW TO BUILD AND RUN THINGS (no cmake build tree is available for your worktree; compile single programs):
   cd {wt}; mkdir -p _cfg; cp /repo/_build/feat_config.hpp _cfg/      # the only file you may copy from outside
